@@ -70,26 +70,34 @@ func verifMapOrder[K cmp.Ordered, V any](m map[K]V) iter.Seq2[K, V] {
 	}
 }
 
+// ---------------------------------------------------------------- degradation
+//
+// Every function of this file that touches private state of the package is a
+// unit the driver can replace by a stub when the tree under check no longer
+// compiles with it (a renamed or retyped private identifier): the stub has the
+// same signature, calls verifMark(<its name>) and returns zero values. A check
+// during which a stub was used reports no verdict (cmd/verif: "degraded").
+
+var verifDegradedUsed []string
+
+func verifMark(name string) {
+	for _, n := range verifDegradedUsed {
+		if n == name {
+			return
+		}
+	}
+	verifDegradedUsed = append(verifDegradedUsed, name)
+}
+
+// VerifDegradedUsed lists the stubbed functions that were called so far.
+func VerifDegradedUsed() []string { return append([]string(nil), verifDegradedUsed...) }
+
 // ---------------------------------------------------------------- globals snapshot
 
+// VerifSnap is a snapshot of every mutable package global: a list of closures
+// that put the saved values back (one per global, see the verifSnap* functions).
 type VerifSnap struct {
-	allLevels            []Level
-	levelToString        map[Level]string
-	stringToLevel        map[string]Level
-	shortTagMap          map[int]map[Level]string
-	mLevelColors         map[Level][]color.Color
-	mLevelIsEnabledAs    map[Level]Level
-	mLevelUseErrorDevice map[Level]bool
-	flags                Flags
-	lvlCurrent           Level
-	defaultLog           Logger
-	defaultWriter        *dualWriter
-	knownPathMap         map[string]string
-	knownPathRegexpMap   []regRepl
-	codeHosting          map[string]string
-	minimalMessageWidth  int
-	levelOutputWidth     int
-	debugMode, traceMode bool
+	restore []func()
 }
 
 func cpMap[K comparable, V any](m map[K]V) map[K]V {
@@ -103,64 +111,124 @@ func cpMap[K comparable, V any](m map[K]V) map[K]V {
 	return r
 }
 
-func VerifSnapshot() *VerifSnap {
-	s := &VerifSnap{
-		allLevels:            append([]Level(nil), allLevels...),
-		levelToString:        cpMap(levelToString),
-		stringToLevel:        cpMap(stringToLevel),
-		shortTagMap:          map[int]map[Level]string{},
-		mLevelColors:         map[Level][]color.Color{},
-		mLevelIsEnabledAs:    cpMap(mLevelIsEnabledAs),
-		mLevelUseErrorDevice: cpMap(mLevelUseErrorDevice),
-		flags:                flags,
-		lvlCurrent:           lvlCurrent,
-		defaultLog:           defaultLog,
-		defaultWriter:        defaultWriter,
-		knownPathMap:         cpMap(knownPathMap),
-		knownPathRegexpMap:   append([]regRepl(nil), knownPathRegexpMap...),
-		codeHosting:          cpMap(codeHostingProvidersMap),
-		minimalMessageWidth:  minimalMessageWidth,
-		levelOutputWidth:     levelOutputWidth,
-		debugMode:            is.DebugMode(),
-		traceMode:            is.TraceMode(),
-	}
+func verifSnapAllLevels(s *VerifSnap) {
+	c := append([]Level(nil), allLevels...)
+	s.restore = append(s.restore, func() { allLevels = append([]Level(nil), c...) })
+}
+
+func verifSnapLevelToString(s *VerifSnap) {
+	c := cpMap(levelToString)
+	s.restore = append(s.restore, func() { levelToString = cpMap(c) })
+}
+
+func verifSnapStringToLevel(s *VerifSnap) {
+	c := cpMap(stringToLevel)
+	s.restore = append(s.restore, func() { stringToLevel = cpMap(c) })
+}
+
+func verifSnapShortTagMap(s *VerifSnap) {
+	c := map[int]map[Level]string{}
 	for k, v := range shortTagMap {
-		s.shortTagMap[k] = cpMap(v)
+		c[k] = cpMap(v)
 	}
+	s.restore = append(s.restore, func() {
+		shortTagMap = map[int]map[Level]string{}
+		for k, v := range c {
+			shortTagMap[k] = cpMap(v)
+		}
+	})
+}
+
+func verifSnapLevelColors(s *VerifSnap) {
+	c := map[Level][]color.Color{}
 	for k, v := range mLevelColors {
-		s.mLevelColors[k] = append([]color.Color(nil), v...)
+		c[k] = append([]color.Color(nil), v...)
 	}
+	s.restore = append(s.restore, func() {
+		mLevelColors = map[Level][]color.Color{}
+		for k, v := range c {
+			mLevelColors[k] = append([]color.Color(nil), v...)
+		}
+	})
+}
+
+func verifSnapLevelIsEnabledAs(s *VerifSnap) {
+	c := cpMap(mLevelIsEnabledAs)
+	s.restore = append(s.restore, func() { mLevelIsEnabledAs = cpMap(c) })
+}
+
+func verifSnapLevelUseErrorDevice(s *VerifSnap) {
+	c := cpMap(mLevelUseErrorDevice)
+	s.restore = append(s.restore, func() { mLevelUseErrorDevice = cpMap(c) })
+}
+
+func verifSnapFlags(s *VerifSnap) {
+	c := flags
+	s.restore = append(s.restore, func() { flags = c })
+}
+
+func verifSnapLvlCurrent(s *VerifSnap) {
+	c := lvlCurrent
+	s.restore = append(s.restore, func() { lvlCurrent = c })
+}
+
+func verifSnapKnownPathMap(s *VerifSnap) {
+	c := cpMap(knownPathMap)
+	s.restore = append(s.restore, func() { knownPathMap = cpMap(c) })
+}
+
+func verifSnapKnownPathRegexpMap(s *VerifSnap) {
+	c := append([]regRepl(nil), knownPathRegexpMap...)
+	s.restore = append(s.restore, func() { knownPathRegexpMap = append([]regRepl(nil), c...) })
+}
+
+func verifSnapCodeHosting(s *VerifSnap) {
+	c := cpMap(codeHostingProvidersMap)
+	s.restore = append(s.restore, func() { codeHostingProvidersMap = cpMap(c) })
+}
+
+func verifSnapWidths(s *VerifSnap) {
+	a, b := minimalMessageWidth, levelOutputWidth
+	s.restore = append(s.restore, func() { minimalMessageWidth, levelOutputWidth = a, b })
+}
+
+func verifSnapModes(s *VerifSnap) {
+	d, t := is.DebugMode(), is.TraceMode()
+	s.restore = append(s.restore, func() { is.SetDebugMode(d); is.SetTraceMode(t) })
+}
+
+// verifFreshDefaults re-creates the default writer and the default logger (they are mutable objects).
+func verifFreshDefaults() {
+	defaultWriter = newDualWriter()
+	defaultLog = newDetachedLogger()
+}
+
+func VerifSnapshot() *VerifSnap {
+	s := &VerifSnap{}
+	verifSnapAllLevels(s)
+	verifSnapLevelToString(s)
+	verifSnapStringToLevel(s)
+	verifSnapShortTagMap(s)
+	verifSnapLevelColors(s)
+	verifSnapLevelIsEnabledAs(s)
+	verifSnapLevelUseErrorDevice(s)
+	verifSnapFlags(s)
+	verifSnapLvlCurrent(s)
+	verifSnapKnownPathMap(s)
+	verifSnapKnownPathRegexpMap(s)
+	verifSnapCodeHosting(s)
+	verifSnapWidths(s)
+	verifSnapModes(s)
 	return s
 }
 
 // VerifRestore puts every mutable package global back to the snapshot. The
-// default logger and default writer are re-created fresh (they are mutable
-// objects) unless keepDefault is true.
+// default logger and default writer are re-created fresh and the pools replaced.
 func VerifRestore(s *VerifSnap) {
-	allLevels = append([]Level(nil), s.allLevels...)
-	levelToString = cpMap(s.levelToString)
-	stringToLevel = cpMap(s.stringToLevel)
-	shortTagMap = map[int]map[Level]string{}
-	for k, v := range s.shortTagMap {
-		shortTagMap[k] = cpMap(v)
+	for _, f := range s.restore {
+		f()
 	}
-	mLevelColors = map[Level][]color.Color{}
-	for k, v := range s.mLevelColors {
-		mLevelColors[k] = append([]color.Color(nil), v...)
-	}
-	mLevelIsEnabledAs = cpMap(s.mLevelIsEnabledAs)
-	mLevelUseErrorDevice = cpMap(s.mLevelUseErrorDevice)
-	flags = s.flags
-	lvlCurrent = s.lvlCurrent
-	knownPathMap = cpMap(s.knownPathMap)
-	knownPathRegexpMap = append([]regRepl(nil), s.knownPathRegexpMap...)
-	codeHostingProvidersMap = cpMap(s.codeHosting)
-	minimalMessageWidth = s.minimalMessageWidth
-	levelOutputWidth = s.levelOutputWidth
-	is.SetDebugMode(s.debugMode)
-	is.SetTraceMode(s.traceMode)
-	defaultWriter = newDualWriter()
-	defaultLog = newDetachedLogger()
+	verifFreshDefaults()
 	VerifResetPools()
 }
 
@@ -270,12 +338,6 @@ func VerifSetHomeCwd(home, cwd string) {
 	if cwd != "" {
 		knownPathMap[cwd] = "."
 	}
-}
-func VerifDefaultLayout() string {
-	if l, ok := defaultLayouts[flags&Ldatetimeflags]; ok {
-		return l
-	}
-	return TimeNano
 }
 func VerifLevelOutputWidth() int    { return levelOutputWidth }
 func VerifMinimalMessageWidth() int { return minimalMessageWidth }
@@ -395,7 +457,8 @@ func VerifDebugMode() bool { return is.DebugMode() }
 // VerifRestoreKeepPools is VerifRestore without replacing the pools: whatever
 // the previous case left in the pooled contexts / slices flows into the next one.
 func VerifRestoreKeepPools(s *VerifSnap) {
-	pc, pa, fs := poolPrintCtx, poolAttrs, fixedSize
-	VerifRestore(s)
-	poolPrintCtx, poolAttrs, fixedSize = pc, pa, fs
+	for _, f := range s.restore {
+		f()
+	}
+	verifFreshDefaults()
 }
